@@ -124,27 +124,29 @@ CHECKS["C03"] = dict(
     assumptions=["single caller at a time (no concurrent producer/consumer inside one ring operation)", "cyclic_buffer::operator[] index in [0,size)"],
 )
 
+_HEAP_POST = [dict(match=r"^ig_lin_(malloc|realloc)_cpp\.o$",
+                   cmd=["objcopy", "--redefine-sym", "malloc=lin_malloc", "--redefine-sym", "free=lin_free", "--redefine-sym", "realloc=lin_realloc"])]
+_HEAP_IGRIS = ["compat/mem/lin_malloc.cpp", "compat/mem/lin_realloc.cpp", "igris/sync/critical_context.c", "igris/sync/syslock_mutex.cpp"]
 CHECKS["C10"] = dict(
     engine="E6-hist",
     level="exploration",
-    mode="asan",
-    harness=["harness/C10_alloc.cpp"],
-    igris=["compat/mem/lin_malloc.cpp", "compat/mem/lin_realloc.cpp", "igris/sync/critical_context.c", "igris/sync/syslock_mutex.cpp"],
-    post=[dict(match=r"^ig_lin_(malloc|realloc)_cpp\.o$",
-               cmd=["objcopy", "--redefine-sym", "malloc=lin_malloc", "--redefine-sym", "free=lin_free", "--redefine-sym", "realloc=lin_realloc"])],
-    runs=dict(quick=40000, thorough=3000000),
+    parts=[
+        dict(name="hist", mode="asan", harness=["harness/C10_alloc.cpp"], igris=_HEAP_IGRIS, post=_HEAP_POST, runs=dict(quick=40000, thorough=3000000)),
+        dict(name="threads", mode="thr", harness=[("harness/C10_thr_prog.cpp", ["+igris-san"]), "harness/C10_thr.cpp", "sim/thr/thrsim.cpp"], igris=_HEAP_IGRIS,
+             post=_HEAP_POST, libs=["-rdynamic"], runs=dict(quick=8000, thorough=600000)),
+    ],
     design_ref="DESIGN.md 4.6, 5 (C10)",
     technique="deterministic simulation of several client tasks (allocate / free / reallocate / die) against the real allocators, shadow interval map of live blocks with byte patterns checked after every step, ASan",
     level_text="seeded histories of 2-4 clients over the bare-metal heap (malloc/free/realloc on a harness-provided arena) and the three fixed-block pools: every returned "
                "block is checked for arena bounds, alignment, disjointness from all live blocks, untouched contents, realloc prefix; pools for exact capacity, null beyond it, "
                "free-count = capacity - live; heap returns to its initial break when everybody has died. Sampling, not proof",
     level_note="sequential refinement against a shadow model at operation granularity; trusted: the shadow map; the heap's own limit of 99 live allocations is respected as a configuration bound; "
-               "the threaded heap configuration (clients as real threads under the E1 simulator) is not part of this check yet",
+               "the second part runs the heap's clients as real threads under the E1 thread simulator (seeded schedules, happens-before detector on arena and free list)",
     rule="one run = one seeded history over one allocator (lin heap, C pool_head, igris::pool, static_object_pool) with request sizes from {0,1,7,8,9,...,3000}, "
          "LIFO/FIFO/random free orders and client deaths. non-trivial = (heap) a block freed between two live neighbours and a later request served from the free list, "
          "(pools) the pool was exhausted and refilled; distinct = distinct hash of the op/result trace",
     simtime_units="allocator operations",
-    probes=["coalesce_both_sides", "reused_free_chunk", "grow_in_place", "extend_top", "move_realloc", "shrink_split", "brk_lowered", "pool_exhausted"],
+    probes=["coalesce_both_sides", "reused_free_chunk", "grow_in_place", "extend_top", "move_realloc", "shrink_split", "brk_lowered", "pool_exhausted", "heap_contended", "object_pool_odd_element_size"],
     assumptions=["at most 60 live heap blocks (the heap asserts < 100)", "requests stay within the arena (the heap has no upper bound check)", "pool element size >= sizeof(void*)"],
 )
 
